@@ -7,6 +7,7 @@ open GoHeader GoHeader.P2P
 def vhdrVerdict (t R : Nat) (fork : Bool) (h : Nat) : VOut :=
   if h ≤ t then .hard                       -- ErrKnownHeader
   else if h == t + 1 then (if fork then .hard else .ok)   -- adjacent: hash link
+  else if fork then .soft                   -- non-adjacent header of another fork: type-level failure, soft
   else if R != 0 && h - t > R then .soft    -- non-adjacent beyond the trust range
   else .ok
 
